@@ -140,8 +140,13 @@ def body_clobber(ch, ctx):
     if pform == "relative":
         target = os.path.relpath(real)
     try:
-        fkw = dict(force=True) if force else {}          # "raises unless force=True": without force the argument is left at its default
-        db = gffutils.create_db(data, target, verbose=False, **dict(kw, **dict(extra, **fkw)))
+        # "raises unless force=True": force=True is named; a refusal is asked for by force=False (path input), by leaving the
+        # argument out (string input), or by a call that passes id_spec as third POSITIONAL argument and no force (Feature input)
+        fkw = dict(force=True) if force else (dict(force=False) if via == "path" else {})
+        if not force and via == "features" and variant == "plain":
+            db = gffutils.create_db(data, target, "ID", verbose=False, **kw)
+        else:
+            db = gffutils.create_db(data, target, verbose=False, **dict(kw, **dict(extra, **fkw)))
     except Exception as e:
         raised = e
     finally:
